@@ -29,7 +29,7 @@ def gen_defs(rng, n, **kw):
 
 
 def generate(rng, tier):
-    ndefs = 40 if tier == "quick" else 2500
+    ndefs = 80 if tier == "quick" else 2500
     for d in gen_defs(rng, ndefs):
         dsx = sx(d.sexpr())
         paths = d.paths()
